@@ -1,4 +1,5 @@
 import SparseV.Props.C02
+import SparseV.Props.C02Gcxs
 #print axioms SparseV.C02.normalize_slice_spec
 #print axioms SparseV.C02.normalize_slice_range
 #print axioms SparseV.C02.normalize_int_spec
@@ -10,3 +11,11 @@ import SparseV.Props.C02
 #print axioms SparseV.C02.getitem_sorted_promise
 #print axioms SparseV.C02.normalize_index_valid
 #print axioms SparseV.C02.getitem_basic
+#print axioms SparseV.C02.gcxs_tocoo_get
+#print axioms SparseV.C02.gcxs_kernels_agree
+#print axioms SparseV.C02.gcxs_select_get
+#print axioms SparseV.C02.gcxs_flat_spec
+#print axioms SparseV.C02.gcxs_getitem_get
+#print axioms SparseV.C02.gcxs_getitem_wf
+#print axioms SparseV.C02.gcxs_getitem_scalar
+#print axioms SparseV.C02.gcxs_getitem_eq_coo
